@@ -369,7 +369,12 @@ namespace occa {
           return NULL;
         }
 
-        exprNode *blockValue = magicIterator.wrapInParentheses();
+        // The backend index (blockIdx.x, get_group_id(0), ...) is unsigned and often
+        // 32 bits wide: convert it to the iterator's type before doing arithmetic with it
+        parenCastNode indexAsIterator(iterator->source,
+                                      iterator->vartype,
+                                      magicIterator);
+        exprNode *blockValue = indexAsIterator.wrapInParentheses();
         if (updateValue) {
           exprNode *updateInParen = updateValue->wrapInParentheses();
           binaryOpNode mult(iterator->source,
